@@ -322,9 +322,9 @@ def e1(ctx):
     ws_cfgs = [('Ws-q', dict(Lens={0, 125, 126, 65535, 65536}, MaxMsgs=2, KeyNames={'ones', 'mix'}, EncC='masked', EncS='repo'))]
     if ctx.thorough():
         ws_cfgs = [
-            ('Ws-keys', dict(Lens={0, 1, 125, 126, 127, 65535, 65536}, MaxMsgs=2, KeyNames={'zero', 'ones', 'mix', 'hi'}, EncC='masked', EncS='repo')),
-            ('Ws-3', dict(Lens={0, 125, 126, 65535, 65536}, MaxMsgs=3, KeyNames={'mix'}, EncC='repo', EncS='repo')),
-            ('Ws-indep', dict(Lens={0, 1, 125, 126, 127, 65535, 65536}, MaxMsgs=2, KeyNames={'hi', 'ones'}, EncC='indep', EncS='masked')),
+            ('Ws-keys', dict(Lens={0, 1, 125, 126, 127, 65535, 65536}, MaxMsgs=2, KeyNames={'zero', 'hi'}, EncC='masked', EncS='repo')),
+            ('Ws-3', dict(Lens={0, 125, 126, 65536}, MaxMsgs=3, KeyNames={'mix'}, EncC='repo', EncS='repo')),
+            ('Ws-indep', dict(Lens={0, 125, 126, 65535, 65536}, MaxMsgs=2, KeyNames={'ones', 'mix'}, EncC='indep', EncS='masked')),
         ]
     for name, c in ws_cfgs:
         if name == 'Ws-indep':   # small: also liveness (every message sent is eventually received, under weak fairness)
@@ -334,8 +334,8 @@ def e1(ctx):
     abc = {'a', ':', ' ', 'CR', 'LF'}
     ha = [('HttpA-q', dict(Alphabet=abc, TokLen=1, BodyLen=1, MaxHdrs=2))]
     if ctx.thorough():
-        ha = [('HttpA-2h', dict(Alphabet=abc, TokLen=1, BodyLen=2, MaxHdrs=2)),
-              ('HttpA-tok2', dict(Alphabet=abc, TokLen=2, BodyLen=1, MaxHdrs=1))]
+        ha += [('HttpA-2h', dict(Alphabet={':', ' ', 'CR', 'LF'}, TokLen=1, BodyLen=2, MaxHdrs=2)),   # separators only
+               ('HttpA-tok2', dict(Alphabet={':', ' ', 'CR', 'LF'}, TokLen=2, BodyLen=1, MaxHdrs=1))]
     for name, c in ha:
         cc = dict(HTTP_CONSTS)
         cc.update(c)
@@ -344,7 +344,8 @@ def e1(ctx):
     cb = dict(Alphabet=set(), TokLen=0, BodyLen=0, MaxHdrs=0, Methods={'GET', 'HEAD', 'POST', 'PUT'},
               Paths={'r0', 'r1', 'r2', 'nr'}, Routes={'r0', 'r1', 'r2'}, HdrSets={'h0', 'h4'} if not ctx.thorough() else {'h0', 'h1', 'h2', 'h3', 'h4'},
               Bodies={'b0', 'b1k'} if not ctx.thorough() else {'b0', 'b1', 'bmid', 'b1k'}, Statuses=set(STATUSES), RBodies={'r1', 'r1k'}, KF=set())
-    jobs.append(('Http', 'HttpB', cfg(spec='BSpec', constants=cb, invariants=['P']), True))
+    if ctx.thorough():   # quick: P is checked along the simulated behaviours of the same model (HttpSim)
+        jobs.append(('Http', 'HttpB', cfg(spec='BSpec', constants=cb, invariants=['P']), True))
     res = []
     with ThreadPoolExecutor(max_workers=3) as ex:
         futs = [(name, cov, ex.submit(ctx.tlc, mod, c, SPEC, name=name, workers=w, coverage=cov, must_pass=True, count=False,
